@@ -3,7 +3,7 @@
    for frames built by the hand-written specification Spec/Responses.v (any payload content, any
    unit address, optional trailing bytes after a Modbus frame).  Every proof is `exact <lemma>`. *)
 From Coq Require Import ZArith List Bool String.
-From GW Require Import Prelude PyStr Crc16 Frames Responses CrcTable ModbusGen ProtoGen RtuResp TcpResp Aa55Resp CmdResp.
+From GW Require Import Prelude PyStr Crc16 Frames Responses CrcTable ModbusGen ProtoGen RtuResp TcpResp Aa55Resp CmdResp Proto ProtoAccept.
 Import ListNotations.
 Open Scope Z_scope.
 
@@ -71,6 +71,19 @@ Theorem C02_aa55_payload : forall (self : pcmd) src dst t1 t2 payload,
   Aa55ProtocolCommand_trim_response self (aa55_frame src dst t1 t2 payload) = payload.
 Proof. exact (fun _ => aa55_trim). Qed.
 
+(* ... and at the protocol level (Model/Proto.v; `received` is the current source of datagram_received / data_received: C07_*_is_the_model): a frame the
+   validator accepts while a request is waiting completes the request's future with exactly that data -- alone, or appended to the stored fragment
+   when it is the missing remainder --, disarms the response timer, resets the retry counter and wakes the waiting caller; nothing is raised *)
+Theorem C02_accepted_answer_completes_the_request : forall s id len f,
+  s_cmd s = true -> s_fut s = Some f -> pending s f = true ->
+  let s' := fst (received s id len VAccept) in
+  snd (received s id len VAccept) = [] /\
+  fstat_of s' f = FResult (delivered s id len) /\
+  s_retry s' = 0%nat /\
+  (forall h, s_timer s = Some h -> ~ In h (s_handles s')) /\
+  (forall k, awaiting f (s_tasks s) = Some k -> In (CbTask k) (s_ready s')).
+Proof. exact accepted_answer_completes_the_request. Qed.
+
 Print Assumptions C02_rtu_read.
 Print Assumptions C02_rtu_read_payload.
 Print Assumptions C02_rtu_write.
@@ -84,3 +97,4 @@ Print Assumptions C02_aa55_write.
 Print Assumptions C02_aa55_write_multi.
 Print Assumptions C02_aa55_generic.
 Print Assumptions C02_aa55_payload.
+Print Assumptions C02_accepted_answer_completes_the_request.
